@@ -25,6 +25,7 @@ RULE = (
     "the run recorded at least two frames or hit a boundary case (k=1, N=0, N%k in {0,k-1}, thermalisation); "
     "distinct = distinct scenario digests"
 )
+LIFECYCLES = {}  # shared object life cycles (scen.add_lifecycles) with their default rates
 BUDGET = {"quick": {"runs": 6000}, "thorough": {"runs": 300000}}
 COMPONENTS = {
     "real": ["tdgl.solver.runner.Runner", "DataHandler", "RunningState", "h5py/HDF5 files", "tdgl.Solution / DynamicsData loading", "TDGLSolver.solve setup/teardown", "TDGLSolver.update (Engine A runs)"],
